@@ -44,6 +44,7 @@ type Expr struct {
 	R     *Expr   `json:"r,omitempty"`
 	Op    string  `json:"op,omitempty"`
 	S     string  `json:"s"`
+	N     string  `json:"n,omitempty"`
 	V     *Num    `json:"v,omitempty"`
 	F     string  `json:"f,omitempty"`
 	Args  []*Expr `json:"args,omitempty"`
@@ -247,6 +248,8 @@ func Print(e *Expr, o Opts) string {
 		return l + sp + e.Op + sp + r
 	case "neg":
 		return "-" + wrap(e.E, 7, o)
+	case "var":
+		return "$" + e.N
 	case "lit":
 		return quote(e.S)
 	case "num":
@@ -299,6 +302,8 @@ func (e *Expr) MarshalJSON() ([]byte, error) {
 		m["op"], m["l"], m["r"] = e.Op, e.L, e.R
 	case "neg":
 		m["e"] = e.E
+	case "var":
+		m["n"] = e.N
 	case "lit":
 		m["s"] = e.S
 	case "num":
